@@ -94,6 +94,37 @@ theorem text_source_shape (tgt : IntTy) :
     numBranchSpec tgt (findClause (casterOf genTables (casterOfInt tgt)) .num) :=
   ⟨text_branches_ok tgt, num_branches_ok tgt⟩
 
+/-- Canonical decimal text (the image of strconv.FormatInt, i.e. `0 | -?[1-9][0-9]*`) carried
+    by a string: exactly the value when it fits, the cast failure otherwise — for every value
+    of any size, with the ported strconv parser (Proofs.IntText). -/
+theorem text_source_exact_or_error (ext : Ext) (tgt : IntTy) (v : Int) :
+    castNamed genTables ext (casterOfInt tgt) (.str (IntText.formatInt v)) =
+      if tgt.inRange v then .ok (.int tgt v) else .err .cast :=
+  call_text_source genTables ext _ _ tgt v 22 (caster_present tgt) (text_branches_ok tgt)
+
+/-- … and by a json.Number. -/
+theorem number_source_exact_or_error (ext : Ext) (tgt : IntTy) (v : Int) :
+    castNamed genTables ext (casterOfInt tgt) (.num (IntText.formatInt v)) =
+      if tgt.inRange v then .ok (.int tgt v) else .err .cast :=
+  cast_num_source genTables ext _ tgt v (caster_present tgt) (text_branches_ok tgt) (num_branches_ok tgt)
+
+/-- Carrier independence across Go integer types, decimal text and json.Number. -/
+theorem carrier_independent_text (ext : Ext) (tgt src : IntTy) (v : Int) (h : src.inRange v) :
+    castNamed genTables ext (casterOfInt tgt) (.str (IntText.formatInt v)) =
+      castNamed genTables ext (casterOfInt tgt) (.int src v) ∧
+    castNamed genTables ext (casterOfInt tgt) (.num (IntText.formatInt v)) =
+      castNamed genTables ext (casterOfInt tgt) (.int src v) := by
+  rw [text_source_exact_or_error, number_source_exact_or_error, int_source_exact_or_error ext tgt src v h]
+  exact ⟨rfl, rfl⟩
+
+/-- The oracle never fires on canonical decimal text. -/
+theorem text_source_no_violation (ext : Ext) (tgt : IntTy) (v : Int) :
+    CastSpec.intCastViolation tgt (.str (IntText.formatInt v))
+      (castNamed genTables ext (casterOfInt tgt) (.str (IntText.formatInt v))) = none := by
+  rw [text_source_exact_or_error]
+  by_cases h : tgt.inRange v <;>
+    simp [CastSpec.intCastViolation, CastSpec.numVal, IntText.canonicalDecimal_formatInt, h]
+
 /-! Non-vacuity: the guards are not trivially `true` (values at the bounds are accepted),
     and the previously wrapped inputs are rejected. -/
 example : castNamed genTables Ext.empty "ToInt64" (.f64 0x43DFFFFFFFFFFFFF) =
